@@ -574,6 +574,9 @@ def _apply_real_faults(sim: Sim, faults):
         path = os.path.join(sim.root, f["target"])
         saved = None
         was_dir = os.path.isdir(path)
+        if was_dir and kind in ("replace", "remove"):
+            # e.g. logs/ left by an earlier invocation in the same process: moved aside, restored afterwards
+            os.rename(path, path + ".sim-saved")
         if os.path.isfile(path):
             with _REAL_OPEN(path, "rb") as fh:
                 saved = fh.read()
@@ -596,6 +599,13 @@ def _undo_real_faults(sim: Sim, undo):
     for idx, kind, path, saved, was_dir in reversed(undo):
         if kind == "mkdir_in_place" and not was_dir:
             shutil.rmtree(path, ignore_errors=True)
+        if was_dir and kind in ("replace", "remove"):
+            if os.path.isfile(path):
+                os.remove(path)
+            elif os.path.isdir(path):
+                shutil.rmtree(path, ignore_errors=True)
+            os.rename(path + ".sim-saved", path)
+            continue
         if saved is not None:
             with _REAL_OPEN(path, "wb") as fh:
                 fh.write(saved)
